@@ -90,7 +90,9 @@ func TestC30_APIAmounts(t *testing.T) {
 		isAmount := true
 		switch rapid.IntRange(0, 9).Draw(t, "kind") {
 		case 4:
-			text = rapid.SampledFrom([]string{"-1", "-0.001", "1.0000001", "0.0000001", "", "abc", " 1", "1 ", "0x10", "1,5", "9223372036855", "9223372036854.775808", "18446744073710", "NaN", "Inf", "-Inf", "1e-7", "1e30", "--1", "1.2.3", "1e", "e1", "."}).Draw(t, "junk")
+			text = rapid.SampledFrom([]string{"-1", "-0.001", "1.0000001", "0.0000001", "", "abc", " 1", "1 ", "0x10", "1,5", "9223372036855", "9223372036854.775808", "18446744073710", "NaN", "Inf", "-Inf", "1e-7", "1e30", "--1", "1.2.3", "1e", "e1", ".",
+				// whole numbers of coins whose droplet value does not fit 64 bits and would come out small if the multiplication wrapped
+				"288230376151711745", "288230376151711746", "576460752303423489", "9223372036854776", "18446744073709552"}).Draw(t, "junk")
 			isAmount, class = false, "not_an_amount"
 		default:
 			unit := rapid.SampledFrom([]uint64{1, 10, 100, 1000, 1000, 1000, 1000000}).Draw(t, "unit")
@@ -122,6 +124,9 @@ func TestC30_APIAmounts(t *testing.T) {
 		s := n.serve(req, 0)
 		if s.hung || s.pan != nil {
 			t.Fatalf("amount %q: hung=%v panic=%v", text, s.hung, s.pan)
+		}
+		if !isAmount && strings.Contains(string(s.body), "balance is not sufficient") {
+			t.Fatalf("the text %q is not an amount in the signed 64-bit droplet range, yet it was taken as one (the request was refused for lack of balance, not for the text): %s", text, trim(string(s.body), 300))
 		}
 		if want != (s.code == 200) || (!want && s.code != 400) {
 			t.Fatalf("amount text %q (%s; denotes %d droplets, amount=%v, offered %s): status %d %s", text, class, val, isAmount, total, s.code, trim(string(s.body), 300))
